@@ -404,10 +404,12 @@ def cti_rules(F, R):
         cnt = op('from_int', idx)
         info = m.last_vg.loops.get(L, {})
         it = info.get('iter')
-        whole = it is not None and it[0] == 'enumerate' and it[1][0] == 'iter' and it[1][1] == ('in', QN)
+        whole = it is not None and ((it[0] == 'enumerate' and it[1][0] == 'iter' and it[1][1] == ('in', QN)) or
+                                   # the same traversal spelled with a counter: positions 0 .. len(window)
+                                   (it[0] == 'range' and it[1] == lit(0, 'i') and it[2] == ('len', ('in', QN)) and not it[3]))
         val = None
         for y in subterms(e):
-            if y[0] == 'get' and y[2] == idx:
+            if y[0] == 'get' and y[2] == idx and (it is None or it[0] != 'range' or y[1] == ('in', QN)):
                 val = y
         ce = comm(e)
         if val is not None and e == val:
